@@ -37,7 +37,8 @@ def rand_closed_tree(rng, pns=(), depth=0, maxdepth=3):
         for _ in range(rng.choice([0, 0, 1, 2, 3])):
             # keys are arbitrary JSON strings: also Clark notation with a namespace name this node binds (or the XML namespace)
             clark = "{" + rng.choice(list(ns.values()) + ["http://www.w3.org/XML/1998/namespace", "urn:unbound"]) + "}" + rng.choice(["id", "lang", "k"])
-            out[rng.choice(["id", "k", "xml:lang", "xsi:type", clark, gen.rand_text(rng, 2) or "z"])] = gen.rand_text(rng, 6)
+            # ... and ones that look like namespace declarations: in the attributes / extras slot they are attributes / extras
+            out[rng.choice(["id", "k", "xml:lang", "xsi:type", clark, gen.rand_text(rng, 2) or "z", "xmlns:stmml", "xmlns", "xmlns:p"])] = gen.rand_text(rng, 6)
         return list(out.items())
     kids = [rand_closed_tree(rng, ns.items(), depth + 1, maxdepth) for _ in range(rng.randint(0, 3) if depth < maxdepth else 0)]
     return impl.T(rng.choice(["a", "title", "para", "é", "x-y", gen.rand_text(rng, 3) or "n"]), rng.choice([None, "", gen.rand_text(rng, 10)]), kids, d(),
